@@ -1084,7 +1084,7 @@ func v12Config(r *verifh.Rand) (string, []string) {
 		}
 	}
 	for k := r.Intn(3); k > 0; k-- {
-		fmt.Fprintf(&sb, "  [[interfaces.dnssl]]\n  domain_names = [\"lan%d.example.org\", \"d%d.example.com\", \"mid.example.net\"]\n", k, k)
+		fmt.Fprintf(&sb, "  [[interfaces.dnssl]]\n  domain_names = [\"lan%d.example.org\", \"d%d.example.com\", \"Mid.Example.NET\"]\n", k, k)
 		if r.Chance(70) {
 			fmt.Fprintf(&sb, "  lifetime = \"%s\"\n", secs(1, 100000))
 		} else {
